@@ -144,4 +144,7 @@ def run(ctx):
         ctx.ob("R10c", "remove(alias):passes-alias", ok,
                "removing by alias passes Some(alias) to remove_node" if ok else
                "remove-by-alias no longer passes the alias to remove_node", b.where)
+    # "rejected without effect" relies on the rollback of alias changes: undo commands in mutation order (R13f)
+    from rules import C13
+    C13.undo_order_rule(ctx)
     return 0
